@@ -734,6 +734,192 @@ GENS = [gen_slice1d, gen_roll, gen_transpose, gen_reshape, gen_basic_nd, gen_sta
         gen_advanced, gen_advanced_exh, gen_einsum, gen_einsum_exh, gen_csr]
 
 
+# ---------------------------------------------------------------- the API layer: operators, where
+
+_BINOPS = [
+    # (label, model op, python callable, numpy callable, cast_to_result_dtype, is_pow)
+    ("add", "ADD", lambda a, b: a + b, np.add, True, False),
+    ("sub", "SUB", lambda a, b: a - b, np.subtract, True, False),
+    ("mul", "MULT", lambda a, b: a * b, np.multiply, True, False),
+    ("truediv", "TRUEDIV", lambda a, b: a / b, np.true_divide, True, False),
+    ("floordiv", "FLOORDIV", lambda a, b: a // b, np.floor_divide, True, False),
+    ("mod", "MOD", lambda a, b: a % b, np.mod, True, False),
+    ("pow", "POWER", lambda a, b: a ** b, np.power, True, True),
+    ("and", "BITWISE_AND", lambda a, b: a & b, np.bitwise_and, True, False),
+    ("or", "BITWISE_OR", lambda a, b: a | b, np.bitwise_or, True, False),
+    ("xor", "BITWISE_XOR", lambda a, b: a ^ b, np.bitwise_xor, True, False),
+    ("equal", "EQUAL", None, np.equal, False, False),
+    ("not_equal", "NOT_EQUAL", None, np.not_equal, False, False),
+    ("less", "LESS", None, np.less, False, False),
+    ("less_equal", "LESS_EQUAL", None, np.less_equal, False, False),
+    ("greater", "GREATER", None, np.greater, False, False),
+    ("greater_equal", "GREATER_EQUAL", None, np.greater_equal, False, False),
+    ("logical_and", "LOGICAL_AND", None, np.logical_and, False, False),
+    ("logical_or", "LOGICAL_OR", None, np.logical_or, False, False),
+]
+
+
+def _api_data(shape, dt, off):
+    n = int(np.prod(shape)) if len(shape) else 1
+    if dt == "bool":
+        return ((np.arange(n) + off) % 3 == 0).reshape(shape)
+    base = (np.arange(n) + off) % 7 - 2            # -2..4, contains 0
+    if dt.startswith("float"):
+        return (base / 2.0).astype(dt).reshape(shape)
+    return base.astype(dt).reshape(shape)
+
+
+def _opd_wire(o, with_vals):
+    kind = o[0]
+    if kind == "arr":
+        _, shape, dt, data = o
+        return f"(arr {ser.shape(shape)} {dt}" + (f" {ser.vals(data)})" if with_vals else ")")
+    if kind == "np":
+        return f"(np {ser.const(o[1])} {np.dtype(type(o[1])).name})"
+    return f"(py {ser.const(o[1])})"
+
+
+def _lean_to_float(v):
+    if v is None:
+        return None
+    if isinstance(v, bool):
+        return float(v)
+    return float(v)
+
+
+def batch_binop(ctx, prop="C02"):
+    """every binary operator / comparison / logical op / where of the array API: the REAL index lambda's
+    expression must be the model's text, its Lean evaluation must equal the Lean spec (NumPy broadcasting of the
+    operator) exactly and NumPy's own function numerically, with no out-of-bounds access"""
+    import pytato as pt
+    shape_pairs = [((2, 3), (2, 3)), ((2, 3), (3,)), ((3,), (2, 3)), ((2, 1), (1, 3)), ((2, 3), ()), ((), (3,)),
+                   ((0, 3), (3,)), ((2, 1, 3), (4, 1))]
+    adts = ["int64", "float64", "int32", "bool"]
+    dt_pairs = [("int64", "int64"), ("int64", "float64"), ("float64", "int32"), ("int32", "int64"),
+                ("bool", "int64"), ("float64", "float64"), ("bool", "bool"), ("float32", "float64")]
+    scalars = [("py", 2), ("py", -3), ("py", 0), ("py", 2.5), ("py", -0.5), ("py", True),
+               ("np", np.int32(2)), ("np", np.float64(0.5)), ("np", np.int64(3)), ("np", np.float32(0.5))]
+    cases = []
+    for label, mop, pyf, npf, cast, is_pow in _BINOPS:
+        ptf = pyf if pyf is not None else getattr(pt, label)
+        combos = []
+        for (s1, s2) in shape_pairs:
+            for (d1, d2) in dt_pairs:
+                combos.append((("arr", s1, d1, _api_data(s1, d1, 1)), ("arr", s2, d2, _api_data(s2, d2, 4))))
+        for s in [(2, 3), (), (0,)]:
+            for d in adts:
+                for sc in scalars:
+                    combos.append((("arr", s, d, _api_data(s, d, 2)), sc))
+                    combos.append((sc, ("arr", s, d, _api_data(s, d, 2))))
+        for o1, o2 in combos:
+            cases.append((label, mop, ptf, npf, cast, is_pow, o1, o2))
+    queries, owners = [], []
+    n = 0
+    for label, mop, ptf, npf, cast, is_pow, o1, o2 in cases:
+        phs = [pt.make_placeholder(f"x{k}", o[1], o[2]) if o[0] == "arr" else o[1] for k, o in enumerate((o1, o2))]
+        try:
+            real = ptf(*phs)
+        except Exception:   # noqa: BLE001  (pytato rejects: bool subtract, bitwise on floats, ...)
+            continue
+        if not hasattr(real, "expr"):
+            continue
+        n += 1
+        params = {"op": label, "operands": [(o[0], o[1] if o[0] == "arr" else repr(o[1]),
+                                             o[2] if o[0] == "arr" else "") for o in (o1, o2)]}
+        try:
+            with np.errstate(all="ignore"):
+                expected = npf(*[o[3] if o[0] == "arr" else o[1] for o in (o1, o2)])
+        except Exception:   # noqa: BLE001
+            expected = None
+        try:
+            expr_s = ser.sexpr(real.expr)
+        except ser.SerError as e:
+            ctx.broken.append(f"serialiser:binop:{e}")
+            continue
+        flags = f"{str(real.dtype)} {'#t' if cast else '#f'} {'#t' if is_pow else '#f'}"
+        binds = {f"_in{k}": o[3] for k, o in enumerate((o1, o2)) if o[0] == "arr"}
+        if sorted(real.bindings) != sorted(binds) or tuple(real.shape) != (
+                () if expected is None and False else tuple(np.broadcast_shapes(
+                    *[o[1] if o[0] == "arr" else () for o in (o1, o2)]))):
+            queries.append("(lower neg 0)")
+            owners.append(("meta", params, expr_s, None, real))
+            continue
+        bs = " ".join(ser.binding(nm, arr) for nm, arr in sorted(binds.items()))
+        queries.append(f"(lower binop {mop} {_opd_wire(o1, False)} {_opd_wire(o2, False)} {flags})")
+        owners.append(("text", params, expr_s, None, real))
+        queries.append(f"(evalil {ser.shape(real.shape)} {expr_s} ({bs}))")
+        owners.append(("eval", params, expr_s, expected, real))
+        queries.append(f"(spec binop {mop} {_opd_wire(o1, True)} {_opd_wire(o2, True)} {flags})")
+        owners.append(("spec", params, expr_s, expected, real))
+    ans = common.driver_query_parallel(queries)
+    dis = 0
+    last_eval = None
+    for (what, params, expr_s, expected, real), a in zip(owners, ans):
+        if what == "meta":
+            dis += 1
+            ctx.violation("api:binop:bindings-or-shape", f"{params}: bindings {sorted(real.bindings)}, shape {real.shape}",
+                          {"kind": "binop", "params": params, "expr": expr_s})
+        elif what == "text":
+            if a != "ok " + expr_s:
+                dis += 1
+                if prop == "C02":
+                    ctx.violation(f"api:binop:{params['op']}:expression",
+                                  f"the index lambda the array API builds for {params} is {expr_s}; the model of "
+                                  f"broadcast_binary_op says {a[3:]}",
+                                  {"kind": "binop", "params": params, "expr": expr_s, "model": a[3:]})
+        elif what == "eval":
+            parts = ser.split_top(a)
+            last_eval = None
+            if parts[0] != "ok":
+                dis += 1
+                ctx.broken.append(f"lean-evalil:binop:{a[:60]}")
+                continue
+            last_eval = parts[1]
+            if int(parts[4]):
+                dis += 1
+                ctx.violation("oob:index-lambda:binop" if prop == "C11" else "api:binop:out-of-bounds",
+                              f"{params}: {parts[4]} out-of-bounds accesses (first {parts[5]})",
+                              {"kind": "binop", "params": params, "expr": expr_s})
+                continue
+            if expected is not None and prop == "C02":
+                got = ser.parse_vals(parts[1])
+                exp = np.asarray(expected).reshape(-1)
+                bad = None
+                if len(got) != exp.size:
+                    bad = "size"
+                else:
+                    for g, e in zip(got, exp.tolist()):
+                        if g is None:
+                            continue
+                        ef = complex(e) if isinstance(e, complex) else float(e)
+                        if ef != ef or ef in (float("inf"), float("-inf")):
+                            continue
+                        if real.dtype == np.bool_:
+                            # the evaluator has no dtypes: bool arithmetic (True + True) is compared by truth value
+                            if bool(g) != bool(ef):
+                                bad = f"{g} vs numpy {e}"
+                                break
+                            continue
+                        if abs(float(g) - ef) > 1e-5 * max(1.0, abs(ef)):
+                            bad = f"{g} vs numpy {e}"
+                            break
+                if bad:
+                    dis += 1
+                    ctx.violation(f"api:binop:{params['op']}:value",
+                                  f"pt {params}: the index lambda evaluates differently from NumPy's own function ({bad})",
+                                  {"kind": "binop", "params": params, "expr": expr_s,
+                                   "observed": parts[1], "expected": exp.tolist()})
+        else:
+            sp = ser.split_top(a)
+            if sp[0] != "ok" or (last_eval is not None and sp[2] != last_eval):
+                if prop == "C02":
+                    dis += 1
+                    ctx.broken.append(f"correspondence:binop-spec-vs-real:{params}")
+    ctx.note_batch("binop", n, dis, exhaustive=True, operators=[b[0] for b in _BINOPS],
+                   note="operators x operand kinds (array/0-d array/Python scalar/NumPy scalar, both orders) x "
+                        "broadcast shape pairs x dtype pairs; expression text, values vs Lean spec and NumPy")
+
+
 # ---------------------------------------------------------------- processing
 
 def _lower(c: LCase):
@@ -928,6 +1114,7 @@ def run(ctx: common.Ctx):
         ctx.note_batch(name, n, dis, exhaustive=exhaustive, kinds=kinds)
     pad_symbolic(ctx, prop="C02")
     einsum_descriptors(ctx)
+    batch_binop(ctx, prop="C02")
     # de-duplicate broken list (keep it short)
     ctx.broken = sorted(set(ctx.broken))[:50]
 
